@@ -87,3 +87,39 @@ func Stats(kv map[string]int) {
 	}
 	fmt.Fprint(f, "}")
 }
+
+// RunOracle is the main loop of an oracle-only probe (no Lean driver): case k of shard `seed` is derived from
+// the single number seed*1000003+k.  one returns a JSON description of the case (the replay input), the class
+// of a failure and its message ("" = the property held), and tags counted into the stats file.
+func RunOracle(one func(caseSeed int64, extra []string) (descJSON, class, msg string, tags []string)) {
+	seed, count, ops, impl, extra, done := Args()
+	defer done()
+	stats := map[string]int{}
+	for k := 0; k < count; k++ {
+		cs := seed*1000003 + int64(k)
+		desc, class, msg, tags := one(cs, extra)
+		fmt.Fprintf(ops, "case %d %s\n", cs, desc)
+		for _, t := range tags {
+			stats[t]++
+		}
+		if msg == "" {
+			fmt.Fprintln(impl, "ok")
+			stats["ok"]++
+		} else {
+			fmt.Fprintln(impl, "fail")
+			stats["fail"]++
+			if len(msg) > 1500 {
+				msg = msg[:1500]
+			}
+			clean := make([]rune, 0, len(msg))
+			for _, r := range msg {
+				if r == '\n' || r == '\t' {
+					r = ' '
+				}
+				clean = append(clean, r)
+			}
+			Fail(class, desc, string(clean))
+		}
+	}
+	Stats(stats)
+}
